@@ -246,7 +246,7 @@ func deepEqual(a, b val.V) Res {
 	case "bytes":
 		return bres(string(a.X) == string(b.X))
 	case "link":
-		return bres(val.CidOf(a.X) == val.CidOf(b.X))
+		return bres(a.Cid() == b.Cid())
 	case "list":
 		if len(a.L) != len(b.L) {
 			return False
